@@ -28,7 +28,7 @@ func init() {
 		QuickBudget: 60 * time.Second,
 		Assumptions: []string{
 			"the canonical state key (order backing array, len, Get of every alphabet key) determines all futures; merges are validated by recomputing successors of merged histories",
-			"callback-visible behaviour of Map on callback error: entries before the failing one are updated, iteration stops",
+			"callback-visible behaviour of Map on callback error: entries before the failing one are updated, iteration stops, the value returned together with the error is not stored",
 		},
 	})
 }
@@ -374,7 +374,7 @@ func apply(m imap, r *orderedmap.Map, op Op) (diff string) {
 			log = append(log, [2]int{k, v})
 			n++
 			if n == 2 {
-				return v, errFail
+				return swap(v) + 7, errFail // whatever comes with an error must not be stored
 			}
 			return swap(v), nil
 		})
